@@ -48,6 +48,7 @@ METRIC = 'numeric.ch0.vmd1'
 CTX_DESCR = 'PC.mds0'
 LOC_STATE = 'LC.mds0State'
 ALERT_COND = 'ac0.mds0'
+TOGGLE = 'EC.toggle'     # descriptor that toggleTx creates, gives a context state, removes again (3 phases)
 
 READERS = {
     'getMdib': lambda b: b.get_client.get_mdib(),
@@ -57,10 +58,17 @@ READERS = {
     'getMdState_handles': lambda b: b.get_client.get_md_state([METRIC, CTX_DESCR, LOC_STATE, ALERT_COND]),
     'getContextStates_all': lambda b: b.context_client.get_context_states(),
     'getContextStates_handles': lambda b: b.context_client.get_context_states(['mds0', CTX_DESCR, LOC_STATE]),
+    # requests whose SELECTION depends on an entity that a concurrent transaction creates / removes
+    'getMdDescription_toggled': lambda b: b.get_client.get_md_description([TOGGLE, 'nope']),
+    'getMdState_toggled': lambda b: b.get_client.get_md_state([TOGGLE, 'nope']),
+    'getContextStates_toggled': lambda b: b.context_client.get_context_states([TOGGLE, 'nope']),
 }
+TOGGLED = ('getMdDescription_toggled', 'getMdState_toggled', 'getContextStates_toggled')
 READER_HANDLES = {'getMdDescription_all': [], 'getMdDescription_handles': [ALERT_COND, 'nope'], 'getMdState_all': [],
                   'getMdState_handles': [METRIC, CTX_DESCR, LOC_STATE, ALERT_COND], 'getContextStates_all': [],
-                  'getContextStates_handles': ['mds0', CTX_DESCR, LOC_STATE], 'getMdib': []}
+                  'getContextStates_handles': ['mds0', CTX_DESCR, LOC_STATE], 'getMdib': [],
+                  'getMdDescription_toggled': [TOGGLE, 'nope'], 'getMdState_toggled': [TOGGLE, 'nope'],
+                  'getContextStates_toggled': [TOGGLE, 'nope']}
 
 
 def w_metric(b, n):
@@ -99,7 +107,29 @@ def w_descriptor_add(b, n):
         tr.add_descriptor(d)
 
 
-WRITERS = {'metricTx': w_metric, 'contextNewTx': w_context_new, 'contextUpdateTx': w_context_update,
+def w_toggle(b, n):
+    """one transaction per call, cycling: create the descriptor TOGGLE -> give it a context state -> remove the descriptor
+    (and with it the state). The phase is kept by the harness, so the transaction itself does not read the MDIB before it starts."""
+    from sdc11073.xml_types import pm_qnames as pm
+    with _TOGGLE_GUARD:   # claimed when the writer starts: two toggle writers of one run take consecutive phases
+        phase = getattr(b, 'toggle_phase', 0)
+        b.toggle_phase = (phase + 1) % 3
+    if phase == 0:
+        cls = b.mdib.data_model.get_descriptor_container_class(pm.EnsembleContextDescriptor)
+        with b.mdib.descriptor_transaction() as tr:
+            tr.add_descriptor(cls(handle=TOGGLE, parent_handle='SC.mds0'))
+    elif phase == 1:
+        with b.mdib.context_state_transaction() as tr:
+            tr.mk_context_state(TOGGLE, f'ens{n}', set_associated=False)
+    else:
+        with b.mdib.descriptor_transaction() as tr:
+            tr.remove_descriptor(TOGGLE)
+
+
+_TOGGLE_GUARD = threading.Lock()
+
+
+WRITERS = {'toggleTx': w_toggle, 'metricTx': w_metric, 'contextNewTx': w_context_new, 'contextUpdateTx': w_context_update,
            'descriptorTx': w_descriptor, 'descriptorAddTx': w_descriptor_add}
 
 
@@ -441,6 +471,7 @@ def run_case(ctx, state, rname, wnames, points, record=True):
     state['n'] += 1
     n0 = state['n'] * 10
     v0 = bench.mdib.mdib_version
+    phase0 = getattr(bench, 'toggle_phase', 0)
     for cl in (bench.get_client, bench.context_client):
         cl.soap_client.last_response = None
     # references to the objects published at v0 (what a reader that already left the section still holds)
@@ -450,7 +481,7 @@ def run_case(ctx, state, rname, wnames, points, record=True):
     f = Forced(bench, tracer, lambda: READERS[rname](bench), writers, points).run()
     evs_all = list(tracer.events)
     r_events = reader_events(tracer, f.reader_tid)
-    res = {'reader': rname, 'writers': wnames, 'points': points, 'v0': v0, 'errors': f.errors, 'n_events': len(r_events),
+    res = {'reader': rname, 'writers': wnames, 'points': points, 'v0': v0, 'toggle_phase': phase0, 'errors': f.errors, 'n_events': len(r_events),
            'r_events': r_events, 'events': evs_all, 'reader_tid': f.reader_tid, 'writer_tids': [th.name for th, _, _ in f.started]}
     if f.errors or f.answer is None:
         res['verdict'] = ('harness', '; '.join(f.errors) or 'no answer')
@@ -510,6 +541,10 @@ def _run(ctx):
         for w in wsel:
             for p in pts:
                 cases.append((rname, [w], [p]))
+        if rname in TOGGLED:
+            # the selection itself changes: every yield point x every phase (create / add state / remove)
+            for p in pts:
+                cases += [(rname, ['toggleTx'], [p])] * 3
         # two transactions in one request (three threads)
         pairs = list(itertools.combinations_with_replacement(pts, 2))
         rng.shuffle(pairs)
@@ -530,6 +565,8 @@ def _run(ctx):
         res = run_case(ctx, state, rname, wn, pts)
         in_flight = any(0 < p < res['n_events'] for p in pts)
         case = {'reader': rname, 'writers': wn, 'points': pts}
+        if 'toggleTx' in wn:
+            case['toggle_phase'] = res['toggle_phase']
         ctx.case(case, nontrivial=in_flight, sample={**case, 'answer_version': res.get('answer_version'), 'v0': res['v0'],
                                                       'reader_events': [e[0] for e in res['r_events']][:12]} if len(pts) == 1 and pts[0] == 3 else None)
         ctx.count('reader:' + rname)
@@ -575,6 +612,11 @@ def _run(ctx):
             for case, res, mprogs in metas:
                 seen.setdefault(case['reader'], set()).add(' '.join(tok_act(a) for a in mprogs[0]))
             for rname, variants in seen.items():
+                if rname in TOGGLED:   # with / without a state to serialise: same program up to the trailing deref
+                    variants = {v.replace(' deref', '') for v in variants}
+                    if variants != {progs[rname].replace(' deref', '')}:
+                        ctx.disagree('reader program traced under forced schedules == generated program', {'reader': rname}, sorted(variants), progs[rname])
+                    continue
                 if variants != {progs[rname]}:
                     ctx.disagree('reader program traced under forced schedules == generated program', {'reader': rname}, sorted(variants), progs[rname])
     # ---- WellLocked of every traced program, evaluated by the model (independent of the build)
@@ -588,6 +630,8 @@ def _run(ctx):
 
 
 def relevant_writers(rname, rng):
+    if rname in TOGGLED:
+        return [rng.choice(['metricTx', 'descriptorTx', 'contextNewTx'])]
     if rname.startswith('getMdDescription'):
         return ['descriptorTx', 'descriptorAddTx']
     if rname.startswith('getContextStates'):
@@ -616,7 +660,7 @@ def parse_force(o):
 
 def report(ctx, res):
     sig, detail = res['verdict']
-    case = {'reader': res['reader'], 'writers': res['writers'], 'points': res['points'],
+    case = {'reader': res['reader'], 'writers': res['writers'], 'points': res['points'], 'toggle_phase': res['toggle_phase'],
             'reader_events': [list(e) for e in res['r_events']][:40]}
     if sig == 'harness':
         raise RuntimeError('forced schedule could not be executed: ' + detail)
@@ -637,6 +681,8 @@ def search(ctx):
 def replay(ctx, obj):
     case = obj['case']
     state = new_state()
+    while getattr(state['bench'], 'toggle_phase', 0) != case.get('toggle_phase', 0):
+        w_toggle(state['bench'], 7)
     res = run_case(ctx, state, case['reader'], case['writers'], case['points'])
     print('reader events:', [e[0] + ('' if e[2] else '*') for e in res['r_events']][:30], '(* = mdib_lock not held)')
     print('answer MdibVersion:', res.get('answer_version'), 'MdibVersion before:', res['v0'], '->', res['verdict'], res.get('mutated'))
